@@ -242,6 +242,9 @@ class C12(Check):
         from oslo_utils import fixture, timeutils
         self.tu = timeutils
         self.fx = fixture
+        # harness-side table (zone transitions), computed once per worker
+        for z in ZONES:
+            fall_back_transitions(z)
 
     def gen(self, st, tier, index, total):
         rng = st('ops')
